@@ -26,7 +26,8 @@
     * hence `CircuitMaxEmitResetDepth` and `CircuitMaxEmitEffDepth` equal their op-list definitions
       (`emitter_reset_and_effective_depth_eq_spec`; no `_statement` is left unproved in this file).
 -/
-import GraphiqModel.Proofs.PrepDepth
+import GraphiqModel.Proofs.MetricsHistDepth
+import GraphiqModel.Properties.C12
 namespace Graphiq.C18
 open Graphiq Graphiq.Dag Graphiq.Metrics
 
@@ -256,7 +257,130 @@ theorem emitter_reset_and_effective_depth_eq_spec : emitter_reset_and_effective_
   fun ne np nc seq hseq hok =>
     ⟨max_emitter_reset_depth_eq_spec ne np nc seq hseq hok, max_emitter_effective_depth_eq_spec ne np nc seq hseq hok⟩
 
-/-! ## 6. non-vacuity -/
+
+/-! ## 6. every circuit satisfying DagInv — hence every circuit reachable by an edit history
+
+  The theorems of §2–§5 are stated for `build ne np nc seq`.  Here the same equalities are proved for ANY circuit `c` that
+  satisfies DagInv with wires `P` (`Good c P`) and holds plain operations, with "the circuit's operation list" being the
+  operation list of any *schedule* `L` of the circuit (`Sched c P L`, Proofs/PrepDepthStatic.lean): all operation nodes, each
+  once, each with its operation *as wired* (`wiredOp`: only the classical registers on whose wire the node is threaded — `add`
+  threads all `c_registers`, `insert_at` by design none), in an order such that every wire is `in, (the scheduled nodes on the
+  register, in schedule order), out`.  Every topological order of the graph — what `sequence()` returns — is a schedule, and
+  one exists; so the specification on a general circuit is "`Spec.*` of the operations in any topological order". -/
+
+/-- **the wired operation of a node acts on exactly the registers whose wire contains the node** — so the dependencies the
+    specification sees are exactly the dependencies the graph holds -/
+theorem wired_operation_registers {c : Dag} {P : Reg → List NodeId} (g : Good c P) {i : Nat} {o : Op}
+    (hm : (NodeId.op i, o) ∈ c.nodes) (r : Reg) : r ∈ opRegs (wiredOp P (.op i) o) ↔ NodeId.op i ∈ P r :=
+  mem_opRegs_wiredOp g hm r
+
+/-- an operation threaded on all its classical registers (every operation put in by `add`) is its own wired form -/
+theorem wired_operation_of_add {P : Reg → List NodeId} {n : NodeId} {o : Op} (h : ∀ j ∈ o.cregs, n ∈ P ⟨.c, j⟩) :
+    wiredOp P n o = o := wiredOp_eq_self h
+
+/-- **every topological order is a schedule.**  For a circuit satisfying DagInv and any position function that increases
+    along every edge and is injective on the nodes (the recorded contract of `nx.topological_sort`), the operation nodes
+    sorted by position, with their wired operations, form a schedule. -/
+theorem every_topological_order_is_a_schedule {c : Dag} {P : Reg → List NodeId} (g : Good c P) {pos : NodeId → Nat}
+    (hlin : LinearExt c pos) (hinj : ∀ a ∈ c.nodeIds, ∀ b ∈ c.nodeIds, pos a = pos b → a = b) :
+    Sched c P (schedOf c P pos) := schedOf_sched g hlin hinj
+
+/-- **every circuit satisfying DagInv has a schedule** (no hypothesis: a topological order exists by acyclicity) — so
+    `max_depth_on_scheduled_circuit` applies to every such circuit -/
+theorem every_circuit_has_a_schedule {c : Dag} {P : Reg → List NodeId} (g : Good c P) : ∃ L, Sched c P L := sched_exists g
+
+/-- all metrics of `c` equal their op-list specifications on the operation list `ops` -/
+structure MetricsMeetSpec (c : Dag) (ops : List Op) : Prop where
+  cnot : Metrics.cnotCount c = Spec.cnotCount ops
+  measure : Metrics.measureCount c = Spec.measureCount ops
+  unitary : Metrics.unitaryCount c = .ok (Spec.unitaryCount ops)
+  register_depth : ∀ t, c.calculateRegDepth t = .ok ((List.range (c.regs t)).map (fun i => (Spec.regDepth ops ⟨t, i⟩ : Int)))
+  depth : c.nodeIds ≠ [] → ∀ Lp, LongestPathSpec c Lp → Metrics.circuitDepthWith Lp = (Spec.depth ops : Int)
+  max_emitter_depth : Metrics.maxEmitDepth c = Spec.maxEmitDepth c.nE ops
+  reset_depth : Metrics.maxEmitResetDepth c = Spec.maxEmitResetDepth c.nE ops
+  effective_depth : Metrics.maxEmitEffDepth c = Spec.maxEmitEffDepth c.nE ops
+
+/-- **Metric theorem for every circuit satisfying DagInv.**  Let `c` satisfy DagInv with wires `P`, hold plain operations,
+    and let `L` be any schedule of it.  Then every metric as coded — the label-index counts, `CircuitUnitaryCount` and the three
+    emitter metrics on the copy `unwrap_nodes(); remove_identity()` (both calls succeed), `register_depth` and the effective
+    depth through the literal un-memoised `_max_depth` recursion with the model's fuel, `CircuitDepth` under the recorded
+    specification of `nx.dag_longest_path_length` — equals its definitional specification on the operation list
+    `L.map snd`.  No reference to how the circuit was made. -/
+theorem metrics_eq_spec_on_any_schedule {c : Dag} {P : Reg → List NodeId} {L : List (NodeId × Op)} (g : Good c P)
+    (hpl : AllPlain c) (hS : Sched c P L) : MetricsMeetSpec c (L.map (·.2)) :=
+  { cnot := cnotCount_eq_spec_sched g hpl hS
+    measure := measureCount_eq_spec_sched g hpl hS
+    unitary := unitaryCount_eq_spec_sched g hpl hS
+    register_depth := calculateRegDepth_eq_spec_sched g hpl hS
+    depth := fun hne _ hLp => circuitDepth_eq_spec_sched g hpl hS hne hLp
+    max_emitter_depth := maxEmitDepth_eq_spec_sched g hpl hS
+    reset_depth := maxEmitResetDepth_eq_spec_sched g hpl hS
+    effective_depth := maxEmitEffDepth_eq_spec_sched g hpl hS }
+
+/-- … in particular with the operations in ANY topological order (what `sequence()` hands to the compilers) -/
+theorem metrics_eq_spec_in_any_topological_order {c : Dag} {P : Reg → List NodeId} (g : Good c P) (hpl : AllPlain c)
+    {pos : NodeId → Nat} (hlin : LinearExt c pos) (hinj : ∀ a ∈ c.nodeIds, ∀ b ∈ c.nodeIds, pos a = pos b → a = b) :
+    MetricsMeetSpec c ((schedOf c P pos).map (·.2)) :=
+  metrics_eq_spec_on_any_schedule g hpl (schedOf_sched g hlin hinj)
+
+/-- the specification does not depend on the schedule chosen: any two schedules of the same circuit give the same value
+    of every specification (shown for the counts and the register depths; each equals the metric) -/
+theorem spec_independent_of_schedule {c : Dag} {P : Reg → List NodeId} {L L' : List (NodeId × Op)} (g : Good c P)
+    (hpl : AllPlain c) (hS : Sched c P L) (hS' : Sched c P L') :
+    Spec.cnotCount (L.map (·.2)) = Spec.cnotCount (L'.map (·.2)) ∧
+    Spec.unitaryCount (L.map (·.2)) = Spec.unitaryCount (L'.map (·.2)) ∧
+    (∀ r, c.live r → Spec.regDepth (L.map (·.2)) r = Spec.regDepth (L'.map (·.2)) r) ∧
+    Spec.maxEmitEffDepth c.nE (L.map (·.2)) = Spec.maxEmitEffDepth c.nE (L'.map (·.2)) := by
+  have m := metrics_eq_spec_on_any_schedule g hpl hS
+  have m' := metrics_eq_spec_on_any_schedule g hpl hS'
+  refine ⟨m.cnot.symm.trans m'.cnot, ?_, ?_, m.effective_depth.symm.trans m'.effective_depth⟩
+  · have := m.unitary.symm.trans m'.unitary
+    injection this
+  · intro r hl
+    have h1 := (sched_depth g hS (hS.input_not_key g hpl)).2 r hl
+    have h2 := (sched_depth g hS' (hS'.input_not_key g hpl)).2 r hl
+    exact_mod_cast h1.unique h2
+
+/-! ### the theorems for `add`-built circuits are the special case "schedule = creation order" -/
+
+/-- a circuit built by `add` has the schedule "nodes in creation order" whose operation list is `seq` itself — so §2–§5 are
+    instances of `metrics_eq_spec_on_any_schedule` -/
+theorem built_circuit_meets_spec (ne np nc : Nat) (seq : List Op) (hseq : PlainSeq seq)
+    (hok : (build ne np nc seq).2 = none) : MetricsMeetSpec (build ne np nc seq).1 seq := by
+  obtain ⟨P, L, g, hS, hL⟩ := build_sched ne np nc seq (fun op h => (hseq op h).1) hok
+  obtain ⟨hops, _⟩ := build_spec ne np nc seq (fun op h => (hseq op h).1) hok
+  have hpl : AllPlain (build ne np nc seq).1 := by
+    intro i o hm
+    have : o ∈ opsOf (build ne np nc seq).1 := mem_opsOf.mpr ⟨i, hm⟩
+    rw [hops] at this
+    exact (hseq o this).2
+  have := metrics_eq_spec_on_any_schedule g hpl hS
+  rwa [hL] at this
+
+/-! ## 7. every circuit reachable by an edit history -/
+
+open Graphiq.C12 in
+/-- **Metrics after any edit history.**  For every history `es` over the whole edit API — add, insert_at, remove_op,
+    replace_op, unwrap_nodes, remove_identity, group_one_qubit_gates, add_*_register, in any order, successful or raising —
+    applied to a fresh `CircuitDAG(ne, np, nc)`, with graphiq-constructed operation arguments (`HistOKg`): the circuit
+    reached satisfies DagInv, has a schedule, and on EVERY schedule `L` of it (in particular the operations in any
+    topological order) all metrics equal their specifications on `L.map snd`. -/
+theorem metrics_after_history (ne np nc : Nat) (es : List C12.Edit) (hok : C12.HistOKg (Dag.init ne np nc) es) :
+    ∃ P, Good (C12.run (Dag.init ne np nc) es) P ∧ (∃ L, Sched (C12.run (Dag.init ne np nc) es) P L) ∧
+      ∀ L, Sched (C12.run (Dag.init ne np nc) es) P L → MetricsMeetSpec (C12.run (Dag.init ne np nc) es) (L.map (·.2)) := by
+  obtain ⟨⟨P, g⟩, hh⟩ := C12.groupHyp_on_every_reachable_circuit ne np nc es hok
+  exact ⟨P, g, sched_exists g, fun L hS => metrics_eq_spec_on_any_schedule g hh.plain hS⟩
+
+/-- … and the wires `P` of the reached circuit are what `reg_gate_history` returns, register by register — the wires are
+    determined by the circuit (`C12.wires_are_determined`) and are obtained from those of the previous circuit by the list
+    edit of the edit applied (C12 §7: append / insert between / erase / keep / splice-in / filter / fuse) -/
+theorem metrics_after_history_wires (ne np nc : Nat) (es : List C12.Edit) (hok : C12.HistOKg (Dag.init ne np nc) es) :
+    ∃ P, Good (C12.run (Dag.init ne np nc) es) P ∧
+      ∀ r, r.idx < (C12.run (Dag.init ne np nc) es).regs r.ty → (C12.run (Dag.init ne np nc) es).regGateHistory r = .ok (P r) := by
+  obtain ⟨⟨P, g⟩, _⟩ := C12.groupHyp_on_every_reachable_circuit ne np nc es hok
+  exact ⟨P, g, fun r hl => regGateHistory_eq_wire g.inv hl⟩
+
+/-! ## 9. non-vacuity -/
 
 def cnotEE : Op := ⟨.cnot, [⟨.e, 0⟩, ⟨.e, 1⟩], [], ["two-qubit"], []⟩
 def hP0 : Op := Op.oneQubit .hadamard ⟨.p, 0⟩
